@@ -62,6 +62,14 @@ type c05Store struct {
 	links    boltz.LinkCollection
 	rcLinks  boltz.RefCountedLinkCollection
 	basePath []string
+	sub      []string // bucket path between the entity bucket and the field buckets (child stores, c05_hier.go)
+}
+
+// rawPath: bolt path of a field bucket of entity x as this store lays it out
+func (st *c05Store) rawPath(x, field string) []string {
+	p := append(append([]string{}, st.basePath...), x)
+	p = append(p, st.sub...)
+	return append(p, field)
 }
 
 // c05World: two stores below a private base path, wired like the test stores of the repository
@@ -283,7 +291,7 @@ func (w *c05World) dump(tx *bbolt.Tx) string {
 			it := c05Cursor(ou, st.links.IterateLinks(tx, []byte(x)))
 			// raw traversal of the link bucket
 			var raw []string
-			if b := c05RawBucket(tx, append(append([]string{}, st.basePath...), x, st.field)); b != nil {
+			if b := c05RawBucket(tx, st.rawPath(x, st.field)); b != nil {
 				_ = b.ForEach(func(k, v []byte) error {
 					_, val := boltz.GetTypeAndValue(k)
 					raw = append(raw, c05Idx(ou, string(val)))
@@ -309,7 +317,7 @@ func (w *c05World) dump(tx *bbolt.Tx) string {
 			sort.Strings(ct)
 			sort.Strings(cg)
 			var craw []string
-			if b := c05RawBucket(tx, append(append([]string{}, st.basePath...), x, st.rcField)); b != nil {
+			if b := c05RawBucket(tx, st.rawPath(x, st.rcField)); b != nil {
 				_ = b.ForEach(func(k, v []byte) error {
 					_, key := boltz.GetTypeAndValue(k)
 					ft, val := boltz.GetTypeAndValue(v)
@@ -961,6 +969,8 @@ func runC05(o *opts) error {
 				obs = runner.runHistory(t)
 			case "S":
 				obs = runner.runSetLinks(t)
+			case "T":
+				obs = runner.runHier(t)
 			default:
 				obs = "?"
 			}
@@ -1044,6 +1054,24 @@ func runC05(o *opts) error {
 		runLine(c05HistoryText(uA, uB, h))
 	}
 	stats["wide_histories"] = nw
+	// 4. histories over parent / child store hierarchies owning the collections (c05_hier.go)
+	nt := 700
+	if o.thorough() {
+		nt = 12000
+	}
+	if o.n > 0 {
+		nt = o.n
+	}
+	hg := &c05HGen{r: r, stats: stats}
+	for i := 0; i < nt; i++ {
+		line, h := hg.genCase(i)
+		for _, tx := range h {
+			txs++
+			ops += len(tx)
+		}
+		runLine(line)
+	}
+	stats["hier_histories"] = nt
 	stats["histories"] = nh
 	stats["transactions"] = txs
 	stats["operations"] = ops
